@@ -8,7 +8,7 @@
    WebVTT/SSA/TTML/STL writers are established by the harness (50 repetitions x 5 processes x 6 writer
    orders, deep snapshots): that half is correspondence, not proof. *)
 From Coq Require Import List NArith Permutation.
-From Astisub Require Import Kit.Base Kit.GoMap Model.Srt.
+From Astisub Require Import Kit.Base Kit.GoMap Model.Srt Model.Vtt Proofs.VttIOProofs.
 Import ListNotations.
 
 Theorem C19_sorted_range_independent : forall (V A : Type) (m : list (N * V)) (order order' : list N)
@@ -21,8 +21,15 @@ Proof. exact nsort_order_independent. Qed.
 Theorem C19_srt_deterministic : forall l l', l = l' -> write_srt l = write_srt l'.
 Proof. intros l l' H. rewrite H. reflexivity. Qed.
 
+(* the WebVTT writer model takes the iteration orders of the style and region maps as parameters: its
+   bytes do not depend on them *)
+Theorem C19_vtt_deterministic : forall d so so' ro ro',
+  Permutation so so' -> Permutation ro ro' -> write_vtt d so ro = write_vtt d so' ro'.
+Proof. exact write_vtt_order_independent. Qed.
+
 Example C19_example : nsort [3; 1; 2]%N = nsort [2; 3; 1]%N. Proof. reflexivity. Qed.
 
 Print Assumptions C19_sorted_range_independent.
 Print Assumptions C19_sort_forgets_order.
 Print Assumptions C19_srt_deterministic.
+Print Assumptions C19_vtt_deterministic.
